@@ -50,7 +50,8 @@ CHECKS["C03"] = dict(
     level_note="One rule (equality matchers, one equal label), 5 sources, ends +2m/+10m, advances 1m/5m/16m. The 15m source-cache GC ticker is replaced by an explicit GC event (same function). Instants where an end equals now are not judged.",
     assumptions=E1_ASSUME + ["ground truth = alerts held by the real provider whose end is in the future"],
     units=[dict(pkg="inhibit", test="TestVerifC03", shards_quick=16, shards_thorough=16, budget_quick=60, budget_thorough=900),
-           dict(pkg="app", test="TestVerifC03App", shards_quick=16, shards_thorough=16, budget_quick=200, budget_thorough=1200)],
+           dict(pkg="app", test="TestVerifC03App", shards_quick=16, shards_thorough=16, budget_quick=200, budget_thorough=1200),
+           dict(pkg="inhibit", test="TestVerifC03Sched", gomaxprocs=1, shards_quick=4, shards_thorough=16, budget_quick=60, budget_thorough=900)],
 )
 
 CHECKS["C02"] = dict(
